@@ -1,5 +1,5 @@
 import CifModel.Lemmas.Value
-import CifModel.Lemmas.HeapOps
+import CifModel.Lemmas.HeapMap
 import CifModel.Gen.ValueCols
 /-
   Property C19 — value objects are independent deep values; lists and tables keep their contracts.
@@ -365,6 +365,35 @@ theorem C16_map_heap_safe (h : Heap) (hw : h.WF) (nk key : Str) :
         · by_cases hlt2 : a < h2.next
           · exact absurd (hown2 a (by omega) hlt2) ha
           · rw [hw2 a (by omega), hw a (by omega)]
+
+/-- **`cif_map_set_item` on a whole standalone map** (tables and packets): from a represented entry list the operation
+    touches live blocks only, the entries afterwards represent `Model.Value.mapSet es nk key x` (so the heap level refines
+    the pure level, whose refinement of the abstract map is `C19_table_is_map`), blocks outside the map are untouched,
+    dropped blocks are released, allocated blocks are owned by the map or already released again. -/
+theorem C16_map_set_item_heap_safe (h : Heap) (hw : h.WF) (ents : List Nat) (es : List (Str × Str × V)) (F : List Nat)
+    (nk key : Str) (x : Option V) (hr : RepEntries h ents es F) (hF : ∀ a, a ∈ F → a < h.next) :
+    ∃ ents' h' F', mapSetItemH (needEntries es) h ents nk key x = some (ents', h')
+      ∧ RepEntries h' ents' (Model.Value.mapSet es nk key x) F' ∧ h'.WF
+      ∧ (∀ a, a < h.next → a ∉ F → h'.cell a = h.cell a)
+      ∧ (∀ a, a ∈ F → a ∉ F' → h'.cell a = none)
+      ∧ (∀ a, h.next ≤ a → a < h'.next → a ∈ F' ∨ h'.cell a = none)
+      ∧ (∀ a, a ∈ F' → a < h'.next) :=
+  mapSetItemH_spec h hw ents es F nk key x hr hF (needEntries es) (Nat.le_refl _)
+
+/-- **`cif_map_retrieve_item(…, do_remove)` on a whole standalone map**, followed by the caller's `cif_value_free` of the
+    value it was handed: exactly the blocks of the removed entry are released (each once), the remaining entries represent
+    `Model.Value.mapErase es nk`; an absent key changes nothing. -/
+theorem C16_map_remove_item_heap_safe (h : Heap) (hw : h.WF) (ents : List Nat) (es : List (Str × Str × V)) (F : List Nat)
+    (nk : Str) (hr : RepEntries h ents es F) (hF : ∀ a, a ∈ F → a < h.next) :
+    (Model.Value.mapFind es nk = none ∧ ∃ h', mapRemoveItemH h ents nk = some (none, h') ∧ RepEntries h' ents es F
+        ∧ ∀ a, a < h.next → h'.cell a = h.cell a)
+    ∨ (∃ e ko v h1 h2 Fe F'', Model.Value.mapFind es nk = some (nk, ko, v)
+        ∧ mapRemoveItemH h ents nk = some (some (e, ents.erase e), h1)
+        ∧ freeDetached (need v) h1 e = some h2
+        ∧ RepEntries h2 (ents.erase e) (Model.Value.mapErase es nk) F''
+        ∧ disjoint Fe F'' ∧ (∀ a, a ∈ F ↔ (a ∈ Fe ∨ a ∈ F''))
+        ∧ ∀ a, a < h.next → h2.cell a = if a ∈ Fe then none else h.cell a) :=
+  mapRemoveItemH_spec h hw ents es F nk hr hF
 
 /-- F10 (repaired by 50deb6e): on the pinned tree recording a new spelling released the old original key even when
     it *was* the hash key — after `cif_packet_create({"_a"})` and `cif_packet_set_item("_A", …)` the next lookup reads a
